@@ -446,3 +446,71 @@ func ZZ_C04_canaryLeavesOtherNodesAlone() {
 	nondet.Assert("C04.others.active-pod-kept", alive)
 	nondet.Observe("alive", alive)
 }
+
+// ZZ_C04_labelAfterRoleHistory: "lose it once the replica set has become active" for a replica set
+// with a past: the same replica set may have been active before (template B), become a leftover
+// when another template was promoted, be reused as the canary when the user went back to B, and be
+// promoted again.  The stored conditions of each role are what the next sync reads, so the steps
+// are real syncs of the replica-set controller with the ExtendedDaemonSet status set for the role,
+// and an arbitrary 1 or 10 minutes pass between them.  After the history {active?, leftover?,
+// canary, active, active} the pod on the canary node carries no canary label.
+func ZZ_C04_labelAfterRoleHistory() {
+	c, ds, rsNew, _ := zzStore(2)
+	ds.Spec.Strategy.Canary = &datadoghqv1alpha1.ExtendedDaemonSetSpecStrategyCanary{}
+	datadoghqv1alpha1.DefaultExtendedDaemonSetSpec(&ds.Spec, datadoghqv1alpha1.ExtendedDaemonSetSpecStrategyCanaryValidationModeAuto)
+	c.Pods = append(c.Pods, zzPod("pod-node0", zzNodeName(0), zzRSName, zzHashNew, 0, corev1.PodRunning, true, nondet.Base().Add(-7200*1e9)))
+	c.Pods = append(c.Pods, zzPod("pod-node1", zzNodeName(1), zzRSName, zzHashNew, 0, corev1.PodRunning, true, nondet.Base().Add(-7200*1e9)))
+	r := zzReconciler(c, false)
+	pass := func(label string) {
+		minutes := 1
+		if nondet.Bool(label + ".tenMinutesLater") {
+			minutes = 10
+		}
+		for i := 0; i < minutes; i++ {
+			zzKubelet(c)
+		}
+	}
+	sync := func(role string) {
+		switch role {
+		case "active":
+			ds.Status.ActiveReplicaSet = rsNew.Name
+			ds.Status.Canary = nil
+		case "leftover":
+			ds.Status.ActiveReplicaSet = "foo-c"
+			ds.Status.Canary = nil
+		case "canary":
+			ds.Status.ActiveReplicaSet = "foo-c"
+			ds.Status.Canary = &datadoghqv1alpha1.ExtendedDaemonSetStatusCanary{ReplicaSet: rsNew.Name, Nodes: []string{zzNodeName(0)}}
+		}
+		_, err := zzReconcile(r, zzNS, rsNew.Name)
+		nondet.Assert("C04.history.noerror", err == nil)
+	}
+	labelled := func() bool {
+		for _, q := range c.Pods {
+			if q.Name == "pod-node0" {
+				_, l := q.Labels[datadoghqv1alpha1.ExtendedDaemonSetReplicaSetCanaryLabelKey]
+				return l
+			}
+		}
+		return false
+	}
+	wasActive := nondet.Bool("wasActiveBefore")
+	if wasActive {
+		sync("active")
+		pass("afterFirstActive")
+	}
+	wasLeftover := nondet.Bool("wasLeftover")
+	if wasLeftover {
+		sync("leftover")
+		pass("afterLeftover")
+	}
+	sync("canary")
+	nondet.Assert("C04.history.labelled-during-canary", labelled())
+	pass("canary")
+	sync("active")
+	pass("afterPromotion")
+	sync("active")
+	nondet.Assert("C04.history.label-removed", !labelled())
+	nondet.Observe("labelled", labelled())
+	nondet.Reach("C04.history.rollback-to-former-active", wasActive && wasLeftover && !labelled())
+}
